@@ -340,7 +340,8 @@ CmdIns(R, c) == [rows |-> Canonize(EvalG(R, c.t)[1]), ok |-> TRUE]
 CmdUnion(R, c) ==
   LET e1 == EvalG(R, c.a)
       e2 == EvalG(e1[1], c.b)
-  IN [rows |-> Normalize(e2[1], {<<e1[2], e2[2]>>}), ok |-> TRUE]
+      R3 == Close(e2[1], {<<e1[2], e2[2]>>})
+  IN IF Poisoned(R3) THEN [rows |-> R, ok |-> FALSE] ELSE [rows |-> Canonize(R3), ok |-> TRUE]
 
 CmdSet(R, c) ==
   LET ea == EvalGArgs(R, c.a, 1, <<>>)
